@@ -141,7 +141,7 @@ def timer_cases(rng, n):
 
 
 def timer_monitor(case, line):
-    passctr, last = None, None
+    passctr, last, lastfire = None, None, None
     for ev in line.split():
         if ev[0] == "p":
             passctr, last = int(ev[1:]), None
@@ -158,8 +158,19 @@ def timer_monitor(case, line):
             if last is not None and not (last < (due, seq)):
                 return "timers fired out of (due, start) order: %s then %s" % (last, (due, seq))
             last = (due, seq)
-        elif ev[0] == "d":
-            pass
+            lastfire = (i, now)
+        elif ev[0] == "e":
+            urep, rep, din, act = [int(x) for x in ev[1:].split(",")]
+            i, now = lastfire
+            if urep != rep:
+                return "timer %d: repeat in force is %d but the user set %d" % (i, rep, urep)
+            if rep != 0 and act:
+                want = min(now + rep, U64 - 1) - now
+                if din != want:
+                    return ("timer %d re-armed at loop time %d with repeat %d: due in %d, expected %d"
+                            % (i, now, rep, din, want))
+            if rep == 0 and act:
+                return "timer %d without repeat is active at its own callback entry" % i
     return None
 
 
